@@ -62,8 +62,11 @@ namespace BitSerializer::MsgPack::Detail
 		[[nodiscard]] size_t GetPosition() const noexcept override {
 			return mBinaryStreamReader.GetPosition();
 		}
-		void SetPosition(size_t pos) override {
-			mBinaryStreamReader.SetPosition(pos);
+		void SetPosition(size_t pos) override
+		{
+			if (!mBinaryStreamReader.SetPosition(pos)) {
+				throw SerializationException(SerializationErrorCode::InputOutputError, "Unable to set position in the input stream");
+			}
 		}
 		[[nodiscard]] bool IsEnd() const noexcept override {
 			return mBinaryStreamReader.IsEnd();
